@@ -7,6 +7,7 @@ import (
 	"encoding/json"
 	"errors"
 	"fmt"
+	"iter"
 	"math/rand"
 	"os"
 	"os/exec"
@@ -455,6 +456,9 @@ func (s *schedRun) readerBody(call []any, variant int) func() []any {
 				rt, _ := txn.Reverse("GET", "", pat)
 				if rt != nil && rt.Pattern() != pat {
 					rt = nil
+				}
+				if snap := txn.Snapshot(); snap == nil || snap.Has("GET", pat) != (rt != nil) { // a snapshot of a read-only transaction is a read too
+					return []any{"Txn.Snapshot of a read-only transaction disagrees with it"}
 				}
 				if txn.Has("GET", pat) != (rt != nil) {
 					return []any{"Txn.Has and Txn.Reverse disagree"}
@@ -1182,6 +1186,21 @@ func runStress(seed int64, keys []string, nW, nR, opsPerWorker int, yield bool) 
 			}
 		}(sw)
 	}
+	// one iterator sequence, created once on the initial tree, ranged by several goroutines at the same time (the
+	// documentation promises that): every pass must yield the routes the tree had when the sequence was created
+	sharedAll := rt.Iter().All()
+	sharedPrefix := rt.Iter().Prefix(slices.Values([]string{"ECHO"}), "/")
+	countSeq := func(seq iter.Seq2[string, *fox.Route]) int {
+		n := 0
+		for range seq {
+			n++
+			if n%2 == 0 {
+				runtime.Gosched()
+			}
+		}
+		return n
+	}
+	wantAll, wantPrefix := countSeq(sharedAll), countSeq(sharedPrefix)
 	for e := 0; e < 4; e++ {
 		wg.Add(1)
 		go func(e int) {
@@ -1189,6 +1208,15 @@ func runStress(seed int64, keys []string, nW, nR, opsPerWorker int, yield bool) 
 			rng := rand.New(rand.NewSource(seed*31337 + int64(e)))
 			for n := 0; n < opsPerWorker*40 && !writersDone.Load(); n++ {
 				echoOnce(rt, rng)
+				if n%8 == 0 {
+					if a, p := countSeq(sharedAll), countSeq(sharedPrefix); a != wantAll || p != wantPrefix {
+						stressEchoMu.Lock()
+						if len(stressEchoBad) < 5 {
+							stressEchoBad = append(stressEchoBad, echoMismatch{Route: "one Iter sequence ranged by several goroutines", Want: fmt.Sprintf("%d routes (All), %d (Prefix)", wantAll, wantPrefix), Got: fmt.Sprintf("%d, %d", a, p)})
+						}
+						stressEchoMu.Unlock()
+					}
+				}
 			}
 		}(e)
 	}
@@ -1305,7 +1333,7 @@ func runStressD2(r *Run) {
 			json.Unmarshal(eb, &er)
 			r.setCov("echo_requests_under_stress", er.Requests)
 			for _, mm := range er.Mismatches {
-				r.violation(fmt.Sprintf("stress echo route=%s: the handler saw parameters of another request", mm.Route), map[string]any{"kind": "trace", "setup": json.RawMessage(meta),
+				r.violation(fmt.Sprintf("stress echo route=%s: a request or an iteration saw the data of another one", mm.Route), map[string]any{"kind": "trace", "setup": json.RawMessage(meta),
 					"prescribed": mm.Want, "obtained": mm.Got})
 			}
 		}
